@@ -88,8 +88,15 @@ def build_schedules(seed, groups, thorough):
         steps = sorted(steps, key=case_key)
         if cfg["src"] == "fort" and cfg["flaw"] != "none":
             # an artifact with a built-in flaw: created (several sizes), loaded, verified - nothing else
-            for _ in range(3 if thorough else 1):
-                c = fill_cfg(r, cfg)
+            reps = 3 if thorough else 1
+            if cfg["flaw"] == "twopoly":
+                reps *= 3      # the shapes matter: (n, t) with n - t >= 2 and the common production sizes
+            for k in range(reps):
+                if cfg["flaw"] == "twopoly":
+                    n, t = r.choice([(7, 5), (7, 5), (9, 6), (10, 7), (6, 3), (5, 3), (6, 4), (4, 2), (4, 3), (8, 6), (3, 2), (5, 5)])
+                    c = fill_cfg(r, cfg, n=n, t=t)
+                else:
+                    c = fill_cfg(r, cfg)
                 if c["t"] == c["n"] and cfg["flaw"] == "extrashare":
                     c["t"] -= 1
                 fort.append([c, {"ev": "Create"}, {"ev": "Load", "node": 0}, {"ev": "Verify"}])
